@@ -427,6 +427,7 @@ pub struct Machine<'p> {
     pub entry_sp: u64,
     /// first temporary of environment position i, by the backend's own map
     root_tmp: Vec<Temporary>,
+    pub snapshot: Option<Snapshot2>,
 }
 
 enum Stop {
@@ -574,6 +575,7 @@ impl<'p> Machine<'p> {
             stats: EmuStats::default(),
             entry_sp: 0,
             root_tmp: Vec::new(),
+            snapshot: None,
         };
         // entry state (AAPCS64): sp 16-byte aligned, return address in the link register
         let sp = STACK_TOP - 256;
@@ -838,7 +840,19 @@ impl<'p> Machine<'p> {
         let trace = std::env::var("EMU_TRACE").is_ok();
         let mut pc = prog.entry;
         let mut violation = None;
+        let stop_idx = cfg.stop_label.as_ref().and_then(|l| prog.labels.get(l).copied());
         let end: Result<i64, Undefined> = loop {
+            if stop_idx == Some(pc) {
+                self.snapshot = Some(Snapshot2 {
+                    regs: (0..32).map(|r| (self.regs[r], self.rdef[r])).collect(),
+                    sp: self.regs[SP as usize],
+                    stack_base: self.stack.base,
+                    stack_words: self.stack.words.clone(),
+                    stack_def: self.stack.def.clone(),
+                    heap_words: self.heap.words.clone(),
+                });
+                break Ok(0);
+            }
             if pc >= prog.ins.len() {
                 violation = Some(Violation { kind: ViolationKind::WildJump, msg: "execution fell off the end of the code".into(), pc_line: 0 });
                 break Err(Undefined::Internal("fell off"));
@@ -867,8 +881,16 @@ impl<'p> Machine<'p> {
 
 pub fn run(prog: &Program, args: &[i64], cfg: &EmuConfig) -> EmuResult {
     let mut m = Machine::new(prog, args, cfg);
+    if let Some(h) = &cfg.init_heap {
+        for (i, w) in h.iter().enumerate() {
+            if i < m.heap.words.len() {
+                m.heap.words[i] = *w;
+            }
+        }
+    }
     let (end, violation) = m.exec(cfg);
-    EmuResult { outcome: Outcome { prints: m.prints, end }, violation, stats: m.stats }
+    let snapshot = m.snapshot.take();
+    EmuResult { outcome: Outcome { prints: m.prints, end }, violation, stats: m.stats, snapshot }
 }
 
 #[cfg(test)]
@@ -876,7 +898,7 @@ mod tests {
     use super::*;
 
     fn cfg() -> EmuConfig {
-        EmuConfig { heap_bytes: 1 << 16, max_instructions: 100_000, heap_check_every: 0, footprint_check: false }
+        EmuConfig { heap_bytes: 1 << 16, max_instructions: 100_000, heap_check_every: 0, footprint_check: false, ..Default::default() }
     }
 
     fn wrap(body: &str) -> String {
